@@ -1129,7 +1129,7 @@ PROPERTIES = {
             "by the lexer path; no whole-token overwrite/swap; the only sequence operations on token vectors are iteration/get/len, push in the lexer and retain in "
             "delete_marked_tokens; (c) no TokenRemover exists or is registered and deletion is guarded by any_marked(). "
             "(e) what the lexer counts as a token's leading whitespace is exactly the blank set; (f) symbolic slice algebra: format_line_comment and format_compiler_directive append consecutive sub-slices of the token's own text covering it completely, plus blanks / an ASCII case map / a whole copy / truncation to trim_ascii_end. "
-            "Not decided: that try_rewrite_string keeps every character of every pushed line (loop invariant); lexer value-level losslessness (see C13).", []),
+            "Not decided: that try_rewrite_string keeps every character of every pushed line (loop invariant); lexer value-level losslessness (see C13). Added in round 7: (h) nothing is lost at the output boundary: no Write::write (partial write) in the pasfmt crates (shared with C16.i).", []),
     "C07": (check_c07,
             "Structural clauses of C07: (a) the only doors to `&mut Token` in FormattedTokens go through map_tok_ignored, whose decision table is Err(TokenIgnored) iff is_ignored; "
             "(b) the ignored flag is constructor-only, marks are never removed, the marker the ignorers fill is the one FormattedTokens is built from, before any formatter runs; "
